@@ -531,6 +531,22 @@ func TestReplay(t *testing.T) {
 			return CheckTokens(c)
 		},
 		"TestCrossSessions": replaySess,
+		"TestTokenHistories": func(raw json.RawMessage) hx.Vs {
+			var c TokHist
+			if err := json.Unmarshal(raw, &c); err != nil {
+				return hx.Vs{{Sig: "harness:decode", Msg: err.Error()}}
+			}
+			vs, _ := CheckTokHist(c)
+			return vs
+		},
+		"TestHTTPPeers": func(raw json.RawMessage) hx.Vs {
+			var c HTTPCase
+			if err := json.Unmarshal(raw, &c); err != nil {
+				return hx.Vs{{Sig: "harness:decode", Msg: err.Error()}}
+			}
+			vs, _ := CheckHTTP(c)
+			return vs
+		},
 		"TestTranslatorConcurrent": func(raw json.RawMessage) hx.Vs {
 			var c ConcCase
 			if err := json.Unmarshal(raw, &c); err != nil {
